@@ -53,7 +53,7 @@ func (g *gen) Add(name string, typs []types.Type) (string, error) {
 	}
 	errTyp := typs[0]
 	if !derive.IsError(errTyp) {
-		return "", fmt.Errorf("First parameter should be of type error")
+		return "", fmt.Errorf("%s, the first argument, %s, is not of type error", name, g.TypeString(errTyp))
 	}
 	funcTyp := typs[1]
 	sig, ok := funcTyp.(*types.Signature)
